@@ -63,6 +63,14 @@ func replay(args []string) {
 			if prop == "c04" {
 				r.c04Graded(&c)
 			}
+		case "smat":
+			var c SMatCase
+			if e := json.Unmarshal(line, &c); e != nil {
+				return fmt.Errorf("bad smat case: %v: %.200s", e, line)
+			}
+			if prop == "c04" {
+				r.c04Scaled(&c)
+			}
 		case "dmat":
 			var c DMatCase
 			if e := json.Unmarshal(line, &c); e != nil {
@@ -108,6 +116,8 @@ func main() {
 		replay(os.Args[2:])
 	case "record":
 		record(os.Args[2:])
+	case "concurrent":
+		concurrent(os.Args[2:])
 	default:
 		vh.Fatal("unknown sub-command", os.Args[1])
 	}
